@@ -646,6 +646,26 @@ Proof.
   constructor; cbn; [assumption | now apply ok_remove].
 Qed.
 
+Lemma clamp_page_inv e e' : Inv e -> clamp_page dops sops e = Ok e' -> Inv e'.
+Proof.
+  intros [Ish Ist] H. unfold clamp_page in H.
+  destruct (st e) as [| |pg act sel|mv] eqn:Est; try (inv_ok H; constructor; [assumption | now rewrite Est]).
+  destruct (Nat.eqb _ 0); [inv_ok H; constructor; [assumption | now rewrite Est]|].
+  bind_ok H tp Htp. inv_ok H. constructor; cbn [sh st]; [assumption | exact Ist].
+Qed.
+
+Theorem ed_set_options_c_inv e o e' : Inv e -> ed_set_options_c dops sops e o = Ok e' -> Inv e'.
+Proof. intros I H. eapply clamp_page_inv; [apply ed_set_options_inv, I | exact H]. Qed.
+
+Theorem ed_learn_c_inv e k t e' b : Inv e -> ed_learn_c dops sops e k t = Ok (e', b) -> Inv e'.
+Proof.
+  intros I H. unfold ed_learn_c in H. bind_ok H r Hr. bind_ok H e1 He1. inv_ok H. destruct r as [e0 b0].
+  eapply clamp_page_inv; [eapply ed_learn_inv; eassumption | exact He1].
+Qed.
+
+Theorem ed_unlearn_c_inv e k t e' : Inv e -> ed_unlearn_c dops sops e k t = Ok e' -> Inv e'.
+Proof. intros I H. eapply clamp_page_inv; [apply ed_unlearn_inv, I | exact H]. Qed.
+
 Lemma with_phrase_sel_inv e f e' b : Inv e ->
   (forall pg act p p', ps_begin p < ps_end p -> f pg act p = Ok (Some p') -> ps_begin p' < ps_end p') ->
   with_phrase_sel e f = Ok (e', b) -> Inv e'.
@@ -685,15 +705,15 @@ Proof.
   - apply fst_ok_ok in H as (b & H). eapply ed_commit_inv; eassumption.
   - inv_ok H. now apply ed_clear_inv.
   - inv_ok H. destruct I as [[W Dk] Ist]. constructor; cbn [sh st ed_ack]; [constructor; cbn; assumption | assumption].
-  - inv_ok H. now apply ed_set_options_inv.
+  - eapply ed_set_options_c_inv; eassumption.
   - inv_ok H. destruct I as [[W Dk] Ist]. constructor; cbn [sh st ed_set_engine]; [constructor; cbn; assumption | assumption].
   - inv_ok H. destruct I as [[W Dk] Ist]. constructor; cbn [sh st ed_clear_syllable_editor]; [constructor; cbn; assumption | assumption].
   - apply fst_ok_ok in H as (b & H). eapply ed_jump_inv; [exact I | left; exact H].
   - apply fst_ok_ok in H as (b & H). eapply ed_jump_inv; [exact I | right; left; exact H].
   - apply fst_ok_ok in H as (b & H). eapply ed_jump_inv; [exact I | right; right; left; exact H].
   - apply fst_ok_ok in H as (b & H). eapply ed_jump_inv; [exact I | right; right; right; exact H].
-  - apply fst_ok_ok in H as (b & H). eapply ed_learn_inv; eassumption.
-  - inv_ok H. now apply ed_unlearn_inv.
+  - apply fst_ok_ok in H as (b & H). eapply ed_learn_c_inv; eassumption.
+  - eapply ed_unlearn_c_inv; eassumption.
 Qed.
 
 Theorem run_inv ops : forall e e', Inv e -> run dops sops conv e ops = Ok e' -> Inv e'.
